@@ -792,6 +792,11 @@ func (c *updater) buildBackendOAuth(d *backData) {
 			c.logger.Error("path '%s' was not found on namespace '%s'", uriPrefix, namespace)
 			continue
 		}
+		if backend.ID != d.backend.ID {
+			// the oauth2 proxy can be declared by another ingress, so this backend
+			// needs to be rebuilt when the backend of the proxy is changed or removed
+			c.tracker.TrackNames(convtypes.ResourceHABackend, backend.ID, convtypes.ResourceHABackend, d.backend.ID)
+		}
 		h := config.Get(ingtypes.BackOAuthHeaders)
 		headers := strings.Split(h.Value, ",")
 		headersMap := make(map[string]string, len(headers))
